@@ -17,16 +17,29 @@ from harness.probes import Probe, make_net, dy
 MODES = ['IVP_value', 'IVP_prime', 'DBVP', 'DEBVP_dd', 'DEBVP_dn', 'DEBVP_nd', 'DEBVP_nn']
 
 
-def build_condition(C, mode, pv):
+# the documented positional order of the constructors (part of the public API: existing user code passes the end data
+# positionally); a regrouping of the signature silently moves values to the wrong end
+GOLDEN = {'IVP': ['t_0', 'u_0', 'u_0_prime'], 'DirichletBVP': ['t_0', 'u_0', 't_1', 'u_1'],
+          'DoubleEndedBVP1D': ['x_min', 'x_max', 'x_min_val', 'x_min_prime', 'x_max_val', 'x_max_prime']}
+
+
+def build_condition(C, mode, pv, positional=False):
     if mode == 'IVP_value':
-        return C.IVP(t_0=pv['t_0'], u_0=pv['u_0'])
-    if mode == 'IVP_prime':
-        return C.IVP(t_0=pv['t_0'], u_0=pv['u_0'], u_0_prime=pv['u_0_prime'])
-    if mode == 'DBVP':
-        return C.DirichletBVP(t_0=pv['t_0'], u_0=pv['u_0'], t_1=pv['t_1'], u_1=pv['u_1'])
-    kw = {'dd': ('x_min_val', 'x_max_val'), 'dn': ('x_min_val', 'x_max_prime'), 'nd': ('x_min_prime', 'x_max_val'),
-          'nn': ('x_min_prime', 'x_max_prime')}[mode[-2:]]
-    return C.DoubleEndedBVP1D(x_min=pv['x_min'], x_max=pv['x_max'], **{kw[0]: pv['a'], kw[1]: pv['b']})
+        cls, kw = 'IVP', dict(t_0=pv['t_0'], u_0=pv['u_0'])
+    elif mode == 'IVP_prime':
+        cls, kw = 'IVP', dict(t_0=pv['t_0'], u_0=pv['u_0'], u_0_prime=pv['u_0_prime'])
+    elif mode == 'DBVP':
+        cls, kw = 'DirichletBVP', dict(t_0=pv['t_0'], u_0=pv['u_0'], t_1=pv['t_1'], u_1=pv['u_1'])
+    else:
+        k2 = {'dd': ('x_min_val', 'x_max_val'), 'dn': ('x_min_val', 'x_max_prime'), 'nd': ('x_min_prime', 'x_max_val'),
+              'nn': ('x_min_prime', 'x_max_prime')}[mode[-2:]]
+        cls, kw = 'DoubleEndedBVP1D', {'x_min': pv['x_min'], 'x_max': pv['x_max'], k2[0]: pv['a'], k2[1]: pv['b']}
+    if positional:
+        args = [kw.get(n) for n in GOLDEN[cls]]
+        while args and args[-1] is None:
+            args.pop()
+        return getattr(C, cls)(*args)
+    return getattr(C, cls)(**kw)
 
 
 def gen_params(r, mode, big):
@@ -81,7 +94,7 @@ def run_cases(ck, res, n_cases, n_interval):
         k = r.randrange(2) if unit else None
         net = make_net(nets)
         try:
-            cond = build_condition(C, mode, pv)
+            cond = build_condition(C, mode, pv, positional=(ci % 3 == 1))
             if unit:
                 with warnings.catch_warnings():
                     warnings.simplefilter('ignore')
@@ -105,7 +118,8 @@ def run_cases(ck, res, n_cases, n_interval):
         dv = [float(x) for x in du.detach().reshape(-1)]
         probe = nets[k] if unit else nets[0]
         scale = s * (1 + max(abs(x) for x in uv))
-        inp = {'mode': mode, 'unit': k, 'params': pv, 'net': [p.describe() for p in nets], 'points': pts}
+        inp = {'mode': mode, 'unit': k, 'params': pv, 'net': [p.describe() for p in nets], 'points': pts,
+               'constructor_call': 'positional (documented order)' if ci % 3 == 1 else 'keywords'}
         # ---- the property's oracle on the implementation
         for (pt, what, exp) in boundary_expect(mode, pv):
             i = pts.index(pt)
